@@ -297,6 +297,49 @@ def store_family():
   return mods
 
 
+def _after_unpack_str_item(parts):
+  """an item with a str key (constant or computed) that comes after a `**` operand in a dict display"""
+  seen = False
+  for p in parts:
+    if p.startswith("**"):
+      seen = True
+    elif seen and (p.startswith("'") or p.startswith("h()")):
+      return True
+  return False
+
+
+def display_family():
+  """Container displays with unpacking: every arrangement of 0-2 unpacked operands (of different element types, built
+  from call results so that nothing is constant-folded) and 0-2 plain items, for dict / list / tuple / set displays, and
+  the call spellings dict(d, k=v) / [*a] + [x].  Two arrangements are the known finding c01-display-item-after-unpack and
+  are left to W: a `'str': value` item after a `**` operand in a dict display, and a plain element before a `*`
+  operand in a list display (in both the container's type parameter gets a binding at a later CFG node than its
+  earlier bindings, which hides them from the final visibility query).)"""
+  L = ["def g(): return 3", "def h(): return 's'", "d1 = {1: g()}", "d2 = {'k': 1.5}", "l1 = [g()]", "l2 = [h(), None]",
+       "t1 = (g(), h())", "s1 = {g()}"]
+  k = 0
+  dict_items = ["**d1", "**d2", "'a': g()", "b'b': None", "h(): l1"]
+  seq_items = ["*l1", "*l2", "*t1", "g()", "h()", "None"]
+  for i, a in enumerate(dict_items):
+    for b in dict_items[:i] + dict_items[i + 1:]:
+      for c in [None] + [x for x in dict_items if x not in (a, b)][:2]:
+        parts = [a, b] + ([c] if c else [])
+        if _after_unpack_str_item(parts):
+          continue    # known finding c01-display-item-after-unpack (see docstring)
+        k += 1
+        L.append("dd%d = {%s}" % (k, ", ".join(parts)))
+  for i, a in enumerate(seq_items):
+    for b in seq_items[:i] + seq_items[i + 1:]:
+      k += 1
+      if not (b.startswith("*") and not a.startswith("*")):   # [x, *ys]: known finding c01-display-item-after-unpack
+        L.append("dl%d = [%s, %s]" % (k, a, b))
+      L.append("dt%d = (%s, %s)" % (k, a, b))
+      L.append("ds%d = {%s, %s}" % (k, a.replace("*l2", "*t1"), b.replace("*l2", "*t1")))
+  L += ["dc1 = dict(d1, a=g())", "dc2 = dict(d2, **{'z': h()})", "dc3 = [*l1] + [h()]", "dc4 = {**d1}", "dc5 = {**d1, **d2}",
+        "dc6 = [*l1, *l2][0]", "dc7 = {**d2}['k']", "dc8 = (*t1, *l2)[1]"]
+  return ["\n".join(L) + "\n"]
+
+
 # --- oracle ---------------------------------------------------------------------------------------------------
 class Skip(Exception):
   pass
